@@ -1,19 +1,99 @@
 import Smtb.Proofs.Keccak.RelGadget
+import Smtb.Proofs.Keccak.Final
 /-!
 # C04 — the in-circuit Keccak gadget computes Keccak-256 / SHA3-256
+
+Objects:
+* `Smtb.Circuit.Keccak.keccakGadget` — the model of `prover/keccak/keccak.go` (trace-tied to Go);
+* `SatM p` — satisfiability semantics over `ZMod p` (`Smtb/Proofs/Sat.lean`);
+* `Smtb.KeccakSpec.gadgetSpecBits` — the same program run on `Bool` (`Smtb/Model/KeccakSpec.lean`);
+* `Smtb.KeccakRef` — the FIPS 202 reference (`Smtb/Model/Keccak.lean`, differentially tested
+  against `golang.org/x/crypto/sha3` by `harness/cmd/corr04`).
+
+No primality of `p` is needed for the satisfiability statements: they hold over any `ZMod p`
+(only `keccak_output_bits_unique` uses injectivity of `Sat.embed`, i.e. `0 ≠ 1`).
 -/
 namespace Smtb.Properties.C04
 open Smtb Smtb.Circuit Smtb.KeccakSpec
 
 variable {p : ℕ}
 
-/-- On boolean inputs the gadget's constraints are satisfiable in exactly one way: the output is
-the `Bool` run of the gadget program.  All lengths, all domain bytes. -/
+/-- On boolean inputs the gadget's constraints are satisfiable in exactly one way and the output
+is the `Bool` run of the gadget program.  All lengths, all domain bytes. -/
 theorem keccakGadget_sat (dom : ℕ) (msg : List Bool) (k : List (ZMod p) → Prop) :
     (Keccak.keccakGadget dom (msg.map Sat.embed) : SatM p _) k
       ↔ k ((gadgetSpecBits dom msg).map Sat.embed) :=
   Proofs.Keccak.keccakGadget_sat dom msg k
 
+/-- The gadget program with domain byte `0x01` is Keccak-256 (`KECCAK[512]` without suffix,
+Ethereum's hash) on byte-aligned messages of every length. -/
+theorem gadgetSpec_eq_keccak256 (msg : List Bool) (h : 8 ∣ msg.length) :
+    gadgetSpecBits 0x01 msg = KeccakRef.keccak256Bits msg :=
+  Proofs.Keccak.gadgetSpec_eq_keccak256 msg h
+
+/-- The gadget program with domain byte `0x06` is SHA3-256 on byte-aligned messages of every
+length. -/
+theorem gadgetSpec_eq_sha3_256 (msg : List Bool) (h : 8 ∣ msg.length) :
+    gadgetSpecBits 0x06 msg = KeccakRef.sha3_256Bits msg :=
+  Proofs.Keccak.gadgetSpec_eq_sha3_256 msg h
+
+/-- `keccak.NewKeccak256` in the circuit: satisfiable exactly with the Keccak-256 digest. -/
+theorem newKeccak256_sat (msg : List Bool) (h : 8 ∣ msg.length) (k : List (ZMod p) → Prop) :
+    (Keccak.newKeccak256 (msg.map Sat.embed) : SatM p _) k
+      ↔ k ((KeccakRef.keccak256Bits msg).map Sat.embed) := by
+  unfold Keccak.newKeccak256
+  rw [keccakGadget_sat, gadgetSpec_eq_keccak256 msg h]
+
+/-- `keccak.NewSHA3_256` in the circuit: satisfiable exactly with the SHA3-256 digest. -/
+theorem newSHA3_256_sat (msg : List Bool) (h : 8 ∣ msg.length) (k : List (ZMod p) → Prop) :
+    (Keccak.newSHA3_256 (msg.map Sat.embed) : SatM p _) k
+      ↔ k ((KeccakRef.sha3_256Bits msg).map Sat.embed) := by
+  unfold Keccak.newSHA3_256
+  rw [keccakGadget_sat, gadgetSpec_eq_sha3_256 msg h]
+
+/-- The constraints of `NewKeccak256` on a boolean, byte-aligned input are satisfiable with output
+`o` iff `o` is the (embedded) Keccak-256 digest. -/
+theorem keccak_output_unique (msg : List Bool) (h : 8 ∣ msg.length) (o : List (ZMod p)) :
+    (Keccak.newKeccak256 (msg.map Sat.embed) : SatM p _) (· = o)
+      ↔ o = (KeccakRef.keccak256Bits msg).map Sat.embed := by
+  rw [newKeccak256_sat msg h]
+  exact eq_comm
+
+/-- same for `NewSHA3_256` -/
+theorem sha3_output_unique (msg : List Bool) (h : 8 ∣ msg.length) (o : List (ZMod p)) :
+    (Keccak.newSHA3_256 (msg.map Sat.embed) : SatM p _) (· = o)
+      ↔ o = (KeccakRef.sha3_256Bits msg).map Sat.embed := by
+  rw [newSHA3_256_sat msg h]
+  exact eq_comm
+
+/-- Over a field with `0 ≠ 1` the digest bits themselves are determined: two satisfying outputs
+`o = embed bits` have the same `bits`. -/
+theorem keccak_output_bits_unique [Fact p.Prime] (msg : List Bool) (h : 8 ∣ msg.length) (bits : List Bool) :
+    (Keccak.newKeccak256 (msg.map Sat.embed) : SatM p _) (· = bits.map Sat.embed)
+      ↔ bits = KeccakRef.keccak256Bits msg := by
+  rw [keccak_output_unique msg h]
+  constructor
+  · intro e; exact (List.map_injective_iff.mpr Sat.embed_injective e)
+  · intro e; rw [e]
+
 #print axioms keccakGadget_sat
+#print axioms gadgetSpec_eq_keccak256
+#print axioms gadgetSpec_eq_sha3_256
+#print axioms newKeccak256_sat
+#print axioms newSHA3_256_sat
+#print axioms keccak_output_unique
+#print axioms sha3_output_unique
+#print axioms keccak_output_bits_unique
+
+/-! ## non-vacuity -/
+
+/-- the gadget is satisfiable on every boolean input (so the `↔`s above are not `False ↔ False`) -/
+example (dom : ℕ) (msg : List Bool) :
+    ∃ o, (Keccak.keccakGadget dom (msg.map Sat.embed) : SatM p _) (· = o) :=
+  ⟨_, (keccakGadget_sat dom msg _).mpr rfl⟩
+
+/-- byte-aligned messages exist, e.g. the empty one and any list of 8·n bits -/
+example : 8 ∣ ([] : List Bool).length := by decide
+example (n : ℕ) : 8 ∣ (List.replicate (8 * n) true).length := by simp
 
 end Smtb.Properties.C04
